@@ -79,3 +79,10 @@ CASES += [
     {"name": "cross term with the factors exchanged", "kind": "twin", "edits": [
         (_AB12, "(SS[nn_2x, aa_2x]**2)*(SS[k_1x, alpha]**2)", "(SS[k_1x, alpha]**2)*(SS[nn_2x, aa_2x]**2)", 1)]},
 ]
+
+CASES += [
+    {"name": "dephasing rate selected by testing the width (the repaired defect)", "kind": "mutant", "rule": "C12-K", "edits": [
+        ("quantarhei/spectroscopy/mocktwodcalculator.py", "        if pathway.dephs[3] < 0.0:\n            dephy = self.dephy", "        if pathway.widths[3] < 0.0:\n            dephy = self.dephy", 1)]},
+    {"name": "width of the first interval selected by testing the third", "kind": "mutant", "rule": "C12-K", "edits": [
+        ("quantarhei/spectroscopy/mocktwodcalculator.py", "        if pathway.widths[1] < 0.0:\n            widthx = self.widthx", "        if pathway.widths[3] < 0.0:\n            widthx = self.widthx", 1)]},
+]
